@@ -105,7 +105,7 @@ func mutationsOf(ti int, s string, alt, stride int, rng interface{ Intn(int) int
 func TestC21Mutations(t *testing.T) {
 	r := vh.New("C21", "mutations")
 	r.Rule = "case = one mutation of a valid token string: each position x {other hex digits, a non-hex character, upper-case spelling, deletion}, insertion of a hex digit and of a non-hex character at each position, truncation to every length; " +
-		"quick: token 1 gets 1 other hex digit at every 2nd position and every 2nd even-length truncation beyond the header, tokens 2-3 every 8th (the free classes - non-hex, odd lengths, deletions, insertions - are complete for all); thorough: 3 tokens with all 15 other digits at every position and every truncation, 47 more tokens thinned like quick; " +
+		"quick: token 1 gets 1 other hex digit at every 4th position and every 4th even-length truncation beyond the header, tokens 2-3 every 16th (the free classes - non-hex, odd lengths, deletions, insertions - are complete for all); thorough: 3 tokens with all 15 other digits at every position and every truncation, 47 more tokens thinned like quick; " +
 		"distinct = distinct mutated strings; non-trivial = the mutated string is still well-formed hex of even length (so the decryption is attempted)"
 	r.Assume("a mutated string whose hex decoding equals the original bytes (upper-case digit) is the same token and may be accepted")
 
@@ -139,9 +139,9 @@ func TestC21Mutations(t *testing.T) {
 
 		switch {
 		case vh.Tier() != "thorough" && i == 0:
-			a, stride = 1, 2
+			a, stride = 1, 4
 		case vh.Tier() != "thorough":
-			a, stride = 1, 8
+			a, stride = 1, 16
 		case i >= 3:
 			a, stride = 1, 4
 		}
@@ -229,6 +229,10 @@ func TestC21Mutations(t *testing.T) {
 				Desc:     fmt.Sprintf("%s accepted a token string altered by %s at position %d of %d (%s region, char %q)", d, m.Kind, m.Pos, len(orig), reg, m.Ch),
 				Case:     map[string]any{"mutation": m, "original": orig, "mutated": m.Str},
 				Expected: "rejected", Observed: "accepted"})
+		}
+
+		if r.Evaluations%1000 == 999 {
+			_ = r.Write() // a watchdog kill still leaves what was observed so far
 		}
 
 		if r.Evaluations%2503 == 11 {
